@@ -33,6 +33,9 @@ def all_paths(g):
 
 
 def token(r):
+    """r1 presents no credential at all (its requests carry no token header), r2 is an administrator, the others are users"""
+    if r == "r1":
+        return ""
     return ("admin-" if r == "r2" else "user-") + r
 
 
@@ -148,7 +151,7 @@ def run(tier, replay=None):
                     for i in range(1, job["nreq"] + 1):
                         r = "r%d" % i
                         plain, full = names[job["variant"] % 3]
-                        want = full if token(r).startswith("admin") else plain
+                        want = full if token(r).startswith("admin") else ([] if token(r) == "" else plain)
                         got = res["listed"].get(r)
                         if got != want:
                             what = "hidden-entry-leaked" if got and any(x.startswith("secret") for x in got) and want == plain else "list-wrong"
